@@ -1255,6 +1255,8 @@ func (r *replicateChannelHandler) getTSManagerChannelKey(channelName string) str
 
 func (r *replicateChannelHandler) innerHandleReplicateMsg(forward bool, msg *api.ReplicateMsg) {
 	msgPack := msg.MsgPack
+	verifYield("start", msgPack)
+	defer verifYield("done", msgPack)
 	p := r.handlePack(forward, msgPack, msg.TaskID)
 	if p == api.EmptyMsgPack {
 		return
@@ -1263,6 +1265,7 @@ func (r *replicateChannelHandler) innerHandleReplicateMsg(forward bool, msg *api
 	p.CollectionName = msg.CollectionName
 	p.PChannelName = msg.PChannelName
 	p.TaskID = msg.TaskID
+	verifYield("presend", msgPack)
 	GetTSManager().SendTargetMsg(r.getTSManagerChannelKey(r.targetPChannel), p)
 }
 
@@ -1497,6 +1500,7 @@ func (r *replicateChannelHandler) handlePack(forward bool, pack *msgstream.MsgPa
 	}
 	GetTSManager().CollectTS(tsManagerChannelKey, beginTS)
 	r.addCollectionLock.RUnlock()
+	verifYield("collected", pack)
 
 	if r.msgPackCallback != nil && !forward {
 		r.msgPackCallback(r.sourcePChannel, pack)
@@ -1754,6 +1758,7 @@ func (r *replicateChannelHandler) handlePack(forward bool, pack *msgstream.MsgPa
 		GetTSManager().CollectTS(tsManagerChannelKey, newPack.EndTs)
 	}
 
+	verifYield("prelock", pack)
 	GetTSManager().LockTargetChannel(tsManagerChannelKey)
 	defer GetTSManager().UnLockTargetChannel(tsManagerChannelKey)
 
